@@ -343,6 +343,15 @@ def position_rules(r, lib):
                 a0 = strip(term_of(b, cs.node["args"][0]))
                 if _is_self_field(a0, "children") and is_mut_ref(arg_ty(b, cs.node["args"][0])):
                     ins = True
+        # equivalent unguarded form: position = position.or(Some(children.len()))
+        if not ok_val and t[0] == "call" and t[1] in ("std::option::Option::or",) and len(t[2]) == 2:
+            first = strip(t[2][0], mir.VALUE_PRESERVING)
+            second = strip(t[2][1])
+            same = first[0] == "proj" and [e[3] for e in first[2] if e != "*" and e[0] == "f"][-1:] == ["position"]
+            if same and second[0] == "agg" and second[2] == "Some":
+                v = strip(list(second[3].values())[0])
+                if v[0] == "call" and v[1] in ("std::vec::Vec::len", "core::slice::len") and _is_self_field(strip(v[2][0]), "children"):
+                    ok_val = guarded = True
         ok = ok_val and guarded and ins
         r.ob("R9.4.position-write", b.name, ok, "position = Some(self.children.len()) only when still None, followed by the insertion into self.children" if ok else
              "position write: value ok=%s (%s), guarded by is_none=%s, followed by insertion=%s" % (ok_val, term_s(t)[:60], guarded, ins), site=s,
